@@ -13,6 +13,7 @@ import (
 func VerifyIndex(ctx context.Context, name string, idx Index, n int, pb ProgressBar) error {
 	in := make(chan []IndexChunk)
 	g, ctx := errgroup.WithContext(ctx)
+	verifPoolCtx("VerifyIndex", ctx)
 
 	// Setup and start the progressbar if any
 	pb.SetTotal(len(idx.Chunks))
@@ -35,16 +36,21 @@ func VerifyIndex(ctx context.Context, name string, idx Index, n int, pb Progress
 		}
 		defer f.Close()
 		g.Go(func() error {
+			verifPool("VerifyIndex", "start", i, -1)
 			for c := range in {
+				verifPool("VerifyIndex", "recv", i, len(c))
 				// Reuse the fileSeedSegment structure, this is really just a seed segment after all
 				segment := newFileSeedSegment(name, c, false)
 				if err := segment.Validate(f); err != nil {
+					verifPool("VerifyIndex", "fail", i, -1)
 					return err
 				}
 
 				// Update progress bar, if any
 				pb.Add(len(c))
+				verifPool("VerifyIndex", "ok", i, -1)
 			}
+			verifPool("VerifyIndex", "exit", i, -1)
 			return nil
 		})
 	}
@@ -69,14 +75,19 @@ loop:
 			last = chunksNum - 1
 		}
 		verifYield("VerifyIndex.feed")
+		verifPool("VerifyIndex", "select", -1, i)
 		select {
 		case <-ctx.Done():
+			verifPool("VerifyIndex", "break", -1, -1)
 			interrupted = true
 			break loop
 		case in <- idx.Chunks[i : last+1]:
+			verifPool("VerifyIndex", "sent", -1, i)
 		}
 	}
+	verifPool("VerifyIndex", "close", -1, -1)
 	close(in)
+	verifPool("VerifyIndex", "wait", -1, -1)
 
 	return waitOrInterrupted(g, interrupted)
 }
